@@ -59,7 +59,20 @@ impl Serializer for Rec {
     fn serialize_i32(self, v: i32) -> Result<W, E> {
         Ok(W::I32(v))
     }
-    other!(serialize_bool(bool), serialize_i8(i8), serialize_i16(i16), serialize_i64(i64), serialize_u8(u8), serialize_u16(u16), serialize_u64(u64), serialize_f32(f32), serialize_f64(f64), serialize_char(char), serialize_str(&str), serialize_bytes(&[u8]));
+    other!(
+        serialize_bool(bool),
+        serialize_i8(i8),
+        serialize_i16(i16),
+        serialize_i64(i64),
+        serialize_u8(u8),
+        serialize_u16(u16),
+        serialize_u64(u64),
+        serialize_f32(f32),
+        serialize_f64(f64),
+        serialize_char(char),
+        serialize_str(&str),
+        serialize_bytes(&[u8])
+    );
     fn serialize_none(self) -> Result<W, E> {
         Ok(W::OtherPrimitive)
     }
@@ -75,10 +88,20 @@ impl Serializer for Rec {
     fn serialize_unit_variant(self, _: &'static str, _: u32, _: &'static str) -> Result<W, E> {
         Ok(W::OtherPrimitive)
     }
-    fn serialize_newtype_struct<T: ?Sized + ser::Serialize>(self, _: &'static str, _: &T) -> Result<W, E> {
+    fn serialize_newtype_struct<T: ?Sized + ser::Serialize>(
+        self,
+        _: &'static str,
+        _: &T,
+    ) -> Result<W, E> {
         Ok(W::OtherPrimitive)
     }
-    fn serialize_newtype_variant<T: ?Sized + ser::Serialize>(self, _: &'static str, _: u32, _: &'static str, _: &T) -> Result<W, E> {
+    fn serialize_newtype_variant<T: ?Sized + ser::Serialize>(
+        self,
+        _: &'static str,
+        _: u32,
+        _: &'static str,
+        _: &T,
+    ) -> Result<W, E> {
         Ok(W::OtherPrimitive)
     }
     fn serialize_seq(self, _: Option<usize>) -> Result<Self::SerializeSeq, E> {
@@ -87,10 +110,20 @@ impl Serializer for Rec {
     fn serialize_tuple(self, _: usize) -> Result<Self::SerializeTuple, E> {
         Err(E)
     }
-    fn serialize_tuple_struct(self, _: &'static str, _: usize) -> Result<Self::SerializeTupleStruct, E> {
+    fn serialize_tuple_struct(
+        self,
+        _: &'static str,
+        _: usize,
+    ) -> Result<Self::SerializeTupleStruct, E> {
         Err(E)
     }
-    fn serialize_tuple_variant(self, _: &'static str, _: u32, _: &'static str, _: usize) -> Result<Self::SerializeTupleVariant, E> {
+    fn serialize_tuple_variant(
+        self,
+        _: &'static str,
+        _: u32,
+        _: &'static str,
+        _: usize,
+    ) -> Result<Self::SerializeTupleVariant, E> {
         Err(E)
     }
     fn serialize_map(self, _: Option<usize>) -> Result<Self::SerializeMap, E> {
@@ -99,7 +132,13 @@ impl Serializer for Rec {
     fn serialize_struct(self, _: &'static str, _: usize) -> Result<Self::SerializeStruct, E> {
         Err(E)
     }
-    fn serialize_struct_variant(self, _: &'static str, _: u32, _: &'static str, _: usize) -> Result<Self::SerializeStructVariant, E> {
+    fn serialize_struct_variant(
+        self,
+        _: &'static str,
+        _: u32,
+        _: &'static str,
+        _: usize,
+    ) -> Result<Self::SerializeStructVariant, E> {
         Err(E)
     }
 }
@@ -200,7 +239,10 @@ fn k1_errorkind_written_as_u32_code() {
     let k = any_kind();
     let w = serialize_io_error_kind_as_u32(&k, Rec).unwrap();
     kani::cover!(true, "reachable");
-    assert!(w == W::U32(spec_code(k)), "C15: kind written as serialize_u32(code(kind))");
+    assert!(
+        w == W::U32(spec_code(k)),
+        "C15: kind written as serialize_u32(code(kind))"
+    );
 }
 
 /// C15: every u32 decodes (never an error, never a panic); 0..=17 decode to the table's
@@ -213,7 +255,10 @@ fn k1_errorkind_read_total_and_table() {
     assert!(r.is_ok(), "C15/C16: decoding a u32 code never fails");
     let k = r.unwrap();
     if c <= 17 {
-        assert!(spec_code(k) == c && (c == 16) == (k == ErrorKind::Other), "C15: portable code decodes to its kind");
+        assert!(
+            spec_code(k) == c && (c == 16) == (k == ErrorKind::Other),
+            "C15: portable code decodes to its kind"
+        );
     } else {
         assert!(k == ErrorKind::Other, "C15: unknown codes degrade to Other");
     }
@@ -239,6 +284,9 @@ fn k1_errorkind_round_trip() {
     if portable {
         assert!(back == k, "C15: portable kinds round-trip exactly");
     } else {
-        assert!(back == ErrorKind::Other, "C15: other kinds degrade to the generic kind");
+        assert!(
+            back == ErrorKind::Other,
+            "C15: other kinds degrade to the generic kind"
+        );
     }
 }
